@@ -53,6 +53,21 @@ Theorem C15_one_per_pair : forall P dm order rows out,
 Proof. exact pk_one_per_pair. Qed.
 Print Assumptions C15_one_per_pair.
 
+(* what "pair" means: a target group led by t and the decoy group led by protein_map[t] share the key *)
+Theorem C15_pair_key_paired : forall P t d ts ds,
+  pk_no_comma t = true -> pk_no_comma d = true ->
+  pk_get t (pk_protmap P) = Some d -> pk_get d (pk_protmap P) = None ->
+  pk_pair_key P (pk_join_names (t :: ts)) = d /\ pk_pair_key P (pk_join_names (d :: ds)) = d.
+Proof. exact pk_pair_key_paired. Qed.
+Print Assumptions C15_pair_key_paired.
+
+(* target-only FASTA: the decoy group of "A, B" is "decoy_A, decoy_B" *)
+Theorem C15_target_only_group : forall pre ms,
+  ms <> [] -> Forall (fun m => pk_no_comma m = true) ms ->
+  pk_prefix_members pre (pk_join_names ms) = pk_join_names (map (fun m => pre ++ m) ms).
+Proof. exact pk_prefix_members_join. Qed.
+Print Assumptions C15_target_only_group.
+
 (* ---------- the entry is a best-scoring retained peptide of the pair (ties: one of the best), and it
    reports that peptide, its stripped sequence, its score, its target flag and the group that owns it ---------- *)
 Theorem C15_best : forall P dm order rows out,
